@@ -560,7 +560,7 @@ def gen_wrapper(rng, inner_spec, inner_node, level, allow):
   if k == 'noisy':
     if rng.random() < 0.3:
       return {'k': 'noisy', 'type': rng.choice(['LIGHT_ADDITIVE_GAUSSIAN', 'MODERATE_ADDITIVE_GAUSSIAN', 'SEVERE_ADDITIVE_GAUSSIAN']),
-              'seed': rng.randrange(1, 1000), 'e': inner_spec}
+              'seed': rng.choice([0, rng.randrange(1, 1000), rng.randrange(1, 1000)]), 'e': inner_spec}     # 0 is a seed like any other
     return {'k': 'noisy', 'seed': rng.randrange(0, 10 ** 6), 'e': inner_spec}
   if k == 'sparse':
     return {'k': 'sparse', 'pre': 'SP%d' % level, 'space': rng.choice(SPARSE_SPACES), 'e': inner_spec}
